@@ -1,4 +1,22 @@
 //! Component-level ops (internal functions of the crates), used for component correspondence.
-pub fn run_comp(_op: &str, _a: &[&str]) -> String {
-    "badop".into()
+use lexical_util::format as f;
+
+fn hex128(s: &str) -> u128 {
+    u128::from_str_radix(s.trim_start_matches("0x"), 16).unwrap()
+}
+
+pub fn run_comp(op: &str, a: &[&str]) -> String {
+    match op {
+        // fe HEX128 -> Debug name of `format_error_impl(x)` (run-time hook, cfg lexical_verif)
+        "fe" => format!("{:?}", f::verif_format_error(hex128(a[0]))),
+        // vp HEX128 EXP DP -> is_valid_options_punctuation(format, exponent, decimal_point)
+        "vp" => {
+            let e: u8 = a[1].parse().unwrap();
+            let d: u8 = a[2].parse().unwrap();
+            format!("{}", f::is_valid_options_punctuation(hex128(a[0]), e, d))
+        },
+        // rb HEX128 -> NumberFormatBuilder::rebuild(x).build_unchecked() as hex
+        "rb" => format!("{:x}", f::NumberFormatBuilder::rebuild(hex128(a[0])).build_unchecked()),
+        _ => "badop".into(),
+    }
 }
